@@ -30,6 +30,13 @@ object carries session state from one operation to the next, so oracle (a)
 is applied to the faulted operation AND to every later one; (b) compares the
 whole history with its fault-free run; an authenticate that starts after the
 burst must give the result the tag's key dictates.
+
+History leg mem_hist: several NDEF level operations on ONE Type 1 / Type 2
+tag object, one of them with an error burst, the others fault-free.  The
+clause "a command that was answered is not sent again" is judged ACROSS the
+operations (the tag object's memory image lives on): no write command may
+reach the tag that is identical to the last write command the tag executed
+and answered for the same memory unit - see _WriteWatch.
 """
 import contextlib
 import functools
@@ -61,6 +68,12 @@ ASSUMPTIONS = [
     "protect() is not part of the histories (what a CK write does to a running "
     "session is an approximation in the simulator); the fault-free run of the "
     "same history is the reference for bursts below the retry budget",
+    "history leg mem_hist: which write commands the tag executed and which "
+    "unit they addressed is taken from the simulator's write log; a write "
+    "command that got no answer (lost, refused) voids what the reader knows "
+    "about its unit; format() works on a memory view of its own (Topaz: a "
+    "new memory image), the judgement restarts after it; the second packet "
+    "of the Type 2 SECTOR SELECT is never faulted (as in enum)",
 ]
 
 ERRNO = {"timeout": nfc.tag.TIMEOUT_ERROR, "transmission": nfc.tag.RECEIVE_ERROR,
@@ -794,6 +807,157 @@ def gen_history(tier):
     return s()
 
 
+# ------------------------------------------ Type 1 / Type 2 tag histories
+# Several NDEF level operations on ONE Type 1 / Type 2 tag object (props.
+# tagcommon histories: tag.ndef, has_changed, assignments, the last attempted
+# assignment again, format), exactly one of them with an error burst at a
+# command position, all others fault-free.  The tag object keeps a memory
+# image (what it read, what it changed, which write commands failed) from one
+# operation to the next, so "a command that was answered is not sent again"
+# is judged over the whole history: the tag simulator's log tells for every
+# EXECUTED write command which unit it addressed and whether the reader got
+# the answer.  A write command is a violation when the very same command was
+# the last one executed for that unit and the reader had its answer (the tag
+# holds the content, the reader was told so).  Sound for the one legitimate
+# repetition: a write whose response was lost (executed, not answered) may be
+# - must be - sent again until it is answered once; any write command for the
+# unit that got no answer (lost on the way, refused) voids what the reader
+# knows about the unit.  The judgement runs from one format() to the next:
+# format() works on a memory view of its own.
+def _mem_write_unit(kind, cmd):
+    """(address within the 1 KiB sector / block 0 based byte address) of a
+    Type 1 / Type 2 write command, None for any other command"""
+    if not cmd:
+        return None
+    if kind == "t2t":
+        return cmd[1] * 4 if cmd[0] == 0xA2 and len(cmd) == 6 else None
+    if cmd[0] in (0x53, 0x1A) and len(cmd) == 7:
+        return cmd[1] & 0x7F
+    if cmd[0] in (0x54, 0x1B) and len(cmd) == 14:
+        return cmd[1] * 8
+    return None
+
+
+class _WriteWatch(object):
+    def __init__(self, b, ctx, faulted):
+        self.b, self.ctx, self.faulted = b, ctx, faulted
+        self.state = {}             # unit -> [command, answered, op index]
+        self.dev = None
+        self.outs = []
+        self.later_writes = 0
+        self.hits = 0
+        self.hit_write = False
+
+    def before(self, i, op, tag):
+        self.dev = tag.clf.device
+        self.x0, self.w0 = len(self.dev.xlog), len(self.b.tag.wlog)
+
+    def after(self, i, op, out):
+        kind = self.b.kind
+        wlog = self.b.tag.wlog[self.w0:]
+        wi = 0
+        for idx, cmd, rsp, phase in self.dev.xlog[self.x0:]:
+            unit = _mem_write_unit(kind, cmd)
+            if unit is None:
+                continue
+            injected = isinstance(rsp, str)
+            if injected:
+                self.hit_write = True
+            executed = phase != "cmd" and wi < len(wlog) and (
+                wlog[wi][1] == unit if kind == "t1t"
+                else wlog[wi][1] % 1024 == unit)
+            if not executed:
+                # lost on the way to the tag, or refused by it (NAK / mute):
+                # the reader has no answer, what it knows about the unit (in
+                # whatever sector) is void
+                for addr in self.state:
+                    if addr == unit or (kind == "t2t"
+                                        and addr % 1024 == unit):
+                        self.state[addr] = [cmd, False, i]
+                continue
+            addr = wlog[wi][1]
+            wi += 1
+            answered = isinstance(rsp, bytes)
+            if i > self.faulted:
+                self.later_writes += 1
+            st_ = self.state.get(addr)
+            if st_ is not None and st_[0] == cmd:
+                if st_[1]:
+                    raise Violation(
+                        "answered-command-sent-again",
+                        "operation %d (%s) sent %s for the unit at %d again; "
+                        "the tag executed and answered exactly this command "
+                        "in operation %d (%s) and nothing was written to the "
+                        "unit since; error burst was in operation %d"
+                        % (i, op["op"], cmd.hex(), addr, st_[2],
+                           self.ops[st_[2]]["op"], self.faulted))
+                st_[1] = answered
+                continue
+            self.state[addr] = [cmd, answered, i]
+        if wi != len(wlog):
+            raise HarnessError("executed write not matched with an exchange: "
+                               "%r vs %d write commands" % (wlog, wi))
+        if op["op"] == "format":
+            # format() works on a view of the tag memory of its own (Topaz:
+            # a new memory image; the cached NDEF object is dropped only
+            # when format returned True): what was answered to it is not
+            # what the NDEF object of a later operation was told
+            self.state.clear()
+        if i == self.faulted:
+            self.hits = out["hits"]
+        self.outs.append((out["op"], out["status"]))
+        self.ctx.label("memhist:%s:%s%s" % (
+            out["op"], out["status"],
+            "" if i != self.faulted else ":faulted"))
+
+
+def check_mem_history(case, ctx):
+    desc = case["tag"]
+    b = tc.build(desc, case["old"], case["old_seed"])
+    if b is None:
+        ctx.label("layout-without-room")
+        return
+    ops = case["ops"]
+    faulted = [i for i, o in enumerate(ops) if o.get("fault") is not None]
+    if len(faulted) != 1:
+        raise HarnessError("one faulted operation per history")
+    ctx.label("memhist:" + tc.classify(desc))
+    ctx.set_class("memhist/" + tc.classify(desc))
+    counts = tc.rehearse(desc, case["old"], case["old_seed"], ops)
+    w = _WriteWatch(b, ctx, faulted[0])
+    w.ops = ops
+    # oracle (a) is applied by play(): every operation - the faulted one and
+    # all later ones - returns or raises nfc.tag.TagCommandError
+    tc.play(b, ops, w, counts)
+    if w.hits and w.later_writes:
+        ctx.nontrivial()
+    if w.hits and w.hit_write:
+        ctx.label("memhist:burst-on-write-command")
+    ctx.note({"outcomes": w.outs, "faulted": faulted[0], "hits": w.hits,
+              "writes-executed-later": w.later_writes})
+
+
+def gen_mem_history(tier):
+    fault = st.tuples(
+        st.one_of(st.integers(0, 8), st.integers(0, 40), st.integers(0, 400)),
+        st.sampled_from(KINDS), st.sampled_from([0, 0, 3, 3, 4, 1, 2]),
+        st.sampled_from(PHASES))
+
+    @st.composite
+    def s(draw):
+        desc = draw(tc.hist_desc(t2t=1, t1t=1, t3t=0, t3e=0, t4t=0))
+        ops = draw(tc.hist_ops(False, 2, 6))
+        n = len(ops)
+        # mostly not the last operation: what follows the burst is the point
+        j = draw(st.one_of(st.integers(0, n - 2), st.integers(0, n - 2),
+                           st.integers(0, n - 2), st.just(n - 1)))
+        f = list(draw(fault))
+        ops = [dict(o, fault=f if i == j else None)
+               for i, o in enumerate(ops)]
+        return {"tag": desc, "old": draw(tc.hist_len(False)),
+                "old_seed": draw(st.integers(0, 3)), "ops": ops}
+    return s()
+
 
 LEGS = [
     Leg("enum", run=run, enum=enum_faults, exhaustive=True, shards_quick=12,
@@ -846,4 +1010,25 @@ LEGS = [
              "command/response lost) at a generated command position of a "
              "generated operation; oracles and non-trivial rule as in "
              "felica_hist_enum."),
+    Leg("mem_hist", run=lambda case, ctx: check_mem_history(case, ctx),
+        gen=gen_mem_history, quick=1200, thorough=40000, shards_quick=8,
+        shards_thorough=16, nt_floor=0.15,
+        rule="generated Type 1 (static, dynamic, Topaz, Topaz-512) and Type 2 "
+             "layouts x old message x 2-6 operations on ONE tag object out of "
+             "{tag.ndef, has_changed, assign octets, the last attempted "
+             "octets again, format(version, wipe)}; exactly one operation "
+             "(mostly not the last) carries an error burst (kind x length "
+             "{1,2,3,4,persistent} x command/response lost) starting at its "
+             "k-th exchange (k modulo the exchange count of the fault-free "
+             "rehearsal), all other operations run fault-free.  Oracles over "
+             "the whole history: every operation returns or raises "
+             "TagCommandError; no write command is executed by the tag that "
+             "is identical to the last write command the tag executed AND "
+             "answered for the same unit (byte / 8-byte block / page) - a "
+             "command whose response was lost may be repeated until it is "
+             "answered once; a write command without an answer voids what is "
+             "known about its unit; the judgement restarts after every "
+             "format() (it works on a memory view of its own).  non-trivial "
+             "= the burst hit the operation and a later operation on the "
+             "same tag object had write commands executed."),
 ]
